@@ -390,6 +390,11 @@ def run_c02(chk, prog):
     decoder_rules(chk, cx, {"total": "C02.O2", "order": "C02.O2", "must": "C02.O2", "payload": "C02.O2.payload", "bind": "C02.O2"})
     payload_rules(chk, cx, "C02.O3")
     checksum_rules(chk, cx, "C02.O3")
+    # the other decoding entry point: Frame::read must hand the line it read to from_bytes as it is (C15's read rules),
+    # otherwise a damaged line could be "repaired" before the checks above see it
+    import p_io
+    n = chk.include("C02.read", p_io.run_c15, prog, keep=lambda r: r[:6] in ("C15.O1", "C15.O2", "C15.O3", "C15.O4"))
+    chk.floor("C02.read", "obligations on Frame::read (second decoding entry point)", n, 8)
     chk.assumptions.append("lemma L2 (DESIGN.md section 6): single substitution / deletion / duplication / adjacent transposition / truncation of an encoder output is outside L or decodes to the same frame")
     chk.note_analysed("functions", [cx.from_bytes["name"], cx.payload["name"], cx.find_checksum()["name"]])
 
